@@ -112,6 +112,7 @@ PLAIN_TOKENS = ["YYYY", "YY", "Y", "Q", "MM", "M", "DD", "D", "DDDD", "DDD", "d"
 
 
 class Tokens(Sub):
+    ambient = True
     name = "format_tokens"
     backends = ("py",)
     n = {"quick": 5000, "thorough": 120000}
@@ -183,6 +184,7 @@ ZONE_PARTS = ["Z", "ZZ", "z"]
 
 
 class RoundTrip(Sub):
+    ambient = True
     name = "from_format_roundtrip"
     n = {"quick": 6000, "thorough": 150000}
     shards = {"quick": 3, "thorough": 8}
@@ -235,6 +237,7 @@ class RoundTrip(Sub):
 
 
 class Names(Sub):
+    ambient = True
     name = "localized_names_roundtrip"
     kind = "enum"
     backends = ("py",)
@@ -278,6 +281,7 @@ class Names(Sub):
 
 
 class NowDefaults(Sub):
+    ambient = True
     name = "fields_from_now"
     backends = ("py",)
     n = {"quick": 3000, "thorough": 50000}
